@@ -92,3 +92,17 @@ package app
 //@   requires contentLength >= 0
 //@   top-ensures err == nil ==> 0 <= startPos && startPos <= endPos && endPos < contentLength
 //@   ensures err == nil ==> len(byteRange) >= 8 && matchAt(byteRange, 0, "bytes=")
+
+// C08 (pooled big-file readers): a reader goes back into the per-file pool only rewound and reading from the
+// plain file again, not from the range limiter of the request it has just served.
+//@ extern os.File.Seek(f, offset, whence) n, err
+//@ extern os.File.Close(f) err
+//@ extern sync.Mutex.Lock(m)
+//@ extern sync.Mutex.Unlock(m)
+//@ func bigFileReader.Close(r) err
+//@   props C08
+//@   requires r != nil && r.ff != nil && r.f != nil && r.ff.h != nil
+//@   modifies *
+//@   panics
+//@   top-ensures r.r == r.f
+
